@@ -8,7 +8,7 @@ lean/SockModel/Basic/GenEffects.lean) into lean/SockModel/Generated/Tls.lean:
     `pendingSend = v` is `W.set_pendingSend off len`; `if(pendingError)` is `W.pendingErrorSet`;
     `std::rethrow_exception(std::exchange(pendingError, nullptr))` is `W.rethrowPending`;
   * libssl is the world: `SSL_read`, `SSL_write_ex` (result and `*written`), `SSL_get_error`,
-    `SSL_is_init_finished`, `SSL_pending`, `SslError`;
+    `SSL_is_init_finished`, `SSL_pending`, `SSL_shutdown`, `SslError`;
   * the socket layer below (stage 2: `WaitReadable`, `WaitWritable`, `ReceiveNow`, `Receive`, `SendNow`,
     `SendAll`, `SendTry`, `SendSome`) is the world too (`W.sock*`): the model of the glue (Model/Tls.lean)
     is written over exactly these functions of Model/Net.lean;
@@ -43,6 +43,7 @@ TLS_CALLS = {
     ("SSL_get_error", 2): ("sslGetError", ["drop", I32], I32),
     ("SSL_is_init_finished", 1): ("sslIsInitFinished", ["drop"], I32),
     ("SSL_pending", 1): ("sslPending", ["drop"], I32),
+    ("SSL_shutdown", 1): ("sslShutdown", ["drop"], I32),
     ("SslError", 1): ("sslError", [I32], ERRC),
     ("SocketError", 0): ("socketError", [], ERRC),
 }
@@ -567,6 +568,7 @@ def TLS_SPECS():
         S("Tls_SendSomeWritable", "SendSome", [("data", "ptr"), ("size", U64)], U64),
         S("Tls_DriverQuery", "DriverQuery", [("events", "pollbits")], BOOL),
         S("Tls_DriverPending", "DriverPending", [], VOID),
+        S("Tls_Shutdown", "Shutdown", [], VOID),
     ]
 
 
